@@ -236,11 +236,11 @@ class TCPHiddenServiceEndpoint(object):
         """
 
         from txtorcon.controller import connect
-        tor = connect(reactor, control_endpoint)
-        tor.addCallback(lambda t: t.get_config())
-        # tor is a Deferred
-        return TCPHiddenServiceEndpoint(
-            reactor, tor, public_port,
+        # the constructor refuses invalid option combinations
+        # (ValueError): do that before we connect to anything
+        config = defer.Deferred()
+        ep = TCPHiddenServiceEndpoint(
+            reactor, config, public_port,
             hidden_service_dir=hidden_service_dir,
             local_port=local_port,
             ephemeral=ephemeral,
@@ -249,6 +249,10 @@ class TCPHiddenServiceEndpoint(object):
             version=version,
             single_hop=single_hop,
         )
+        tor = connect(reactor, control_endpoint)
+        tor.addCallback(lambda t: t.get_config())
+        tor.chainDeferred(config)
+        return ep
 
     @classmethod
     def global_tor(cls, reactor, public_port,
@@ -290,17 +294,11 @@ class TCPHiddenServiceEndpoint(object):
 
         def progress(*args):
             progress.target(*args)
-        tor = get_global_tor_instance(
-            reactor,
-            control_port=control_port,
-            progress_updates=progress
-        )
-        # tor is a Deferred here, but endpoint resolves it in the
-        # listen() call. Also, we want it to resolve to a TorConfig,
-        # not a Tor
-        tor.addCallback(lambda tor: tor.get_config())
+        # the constructor refuses invalid option combinations
+        # (ValueError): do that before a Tor is launched
+        config = defer.Deferred()
         r = TCPHiddenServiceEndpoint(
-            reactor, tor, public_port,
+            reactor, config, public_port,
             hidden_service_dir=hidden_service_dir,
             local_port=local_port,
             auth=auth,
@@ -310,6 +308,16 @@ class TCPHiddenServiceEndpoint(object):
             single_hop=single_hop,
         )
         progress.target = r._tor_progress_update
+        tor = get_global_tor_instance(
+            reactor,
+            control_port=control_port,
+            progress_updates=progress
+        )
+        # tor is a Deferred here, but endpoint resolves it in the
+        # listen() call. Also, we want it to resolve to a TorConfig,
+        # not a Tor
+        tor.addCallback(lambda tor: tor.get_config())
+        tor.chainDeferred(config)
         return r
 
     @classmethod
@@ -333,14 +341,11 @@ class TCPHiddenServiceEndpoint(object):
             progress.target(*args)
 
         from .controller import launch
-        tor = launch(
-            reactor,
-            progress_updates=progress,
-            control_port=control_port,
-        )
-        tor.addCallback(lambda t: t.get_config())
+        # the constructor refuses invalid option combinations
+        # (ValueError): do that before a Tor is launched
+        config = defer.Deferred()
         r = TCPHiddenServiceEndpoint(
-            reactor, tor, public_port,
+            reactor, config, public_port,
             hidden_service_dir=hidden_service_dir,
             local_port=local_port,
             ephemeral=ephemeral,
@@ -350,6 +355,13 @@ class TCPHiddenServiceEndpoint(object):
             single_hop=single_hop,
         )
         progress.target = r._tor_progress_update
+        tor = launch(
+            reactor,
+            progress_updates=progress,
+            control_port=control_port,
+        )
+        tor.addCallback(lambda t: t.get_config())
+        tor.chainDeferred(config)
         return r
 
     def __init__(self, reactor, config, public_port,
